@@ -170,6 +170,9 @@ func checkC10(tier, replay string) int {
 						for _, m := range []uint32{1, 2} {
 							scripts = append(scripts, tsyncScript{Phases: v, Flags: fl, LoaderMain: lm, NNP: true, OuterEINVAL: m})
 						}
+						// a policy the kernel cannot take as one program (more than 4096 instructions, 41 groups): a refusal is
+						// expected; whatever else the library does, nil means one load with this flag word and everyone covered
+						scripts = append(scripts, tsyncScript{Phases: v, Flags: fl, LoaderMain: lm, NNP: true, BigPolicy: true})
 					}
 					if len(v) <= 2 {
 						// history: an earlier thread-sync load (policy B) covered everyone; the load under test must behave as its own
@@ -241,7 +244,7 @@ func checkC10(tier, replay string) int {
 			ctx.Violation("C10:load-panicked:"+key, "LoadFilter panicked: "+*rep.Err, sc)
 			return
 		}
-		if rep.Err != nil && (sc.Divergent || sc.OuterENOSYS || (sc.Unpriv && !sc.NNP) || sc.Flags&sc.OuterEINVAL != 0) {
+		if rep.Err != nil && (sc.Divergent || sc.OuterENOSYS || (sc.Unpriv && !sc.NNP) || sc.Flags&sc.OuterEINVAL != 0 || sc.BigPolicy) {
 			atomic.AddInt64(&refused, 1)
 			return // refusal reported as an error: nothing to check
 		}
@@ -251,7 +254,13 @@ func checkC10(tier, replay string) int {
 		}
 		// only the calls that install a filter count: a library that probes for support first does nothing wrong
 		installs := installCalls(rep.Seam)
-		if len(installs) != 1 || installs[0].Flags != uint64(sc.Flags) {
+		flagsOK := len(installs) >= 1
+		for _, in := range installs {
+			// (a library that installs a policy in several pieces does nothing wrong as long as every piece goes with the
+			// requested flag word)
+			flagsOK = flagsOK && in.Flags == uint64(sc.Flags)
+		}
+		if !flagsOK {
 			ctx.Violation("C10:flags-modified:"+key, fmt.Sprintf("flags word at the syscall seam %+v differs from Filter.Flag %#x", rep.Seam, sc.Flags), sc)
 		}
 		atomic.AddInt64(&spawnedDuring, rep.Spawned)
@@ -332,7 +341,7 @@ func checkC10(tier, replay string) int {
 	ctx.Cov["short_lived_threads_spawned_while_loading"] = spawnedDuring
 	ctx.Cov["single_bit_flag_words_checked"] = bits
 	ctx.Cov["thread_sync_refusals_reported_as_error"] = refused
-	ctx.Cov["rule"] = "states = (vector of user-visible phases of N other OS threads at the moment of the load: spinning, in nanosleep, blocked in read, blocked in futex, spawning short-lived threads) x flags {0,tsync,log,tsync|log} x loader on main / non-main thread; every vector for N<=2 (quick) / N<=3 (thorough) and homogeneous + mixed vectors for N=8 (and 64 thorough); plus histories and environments for the small vectors (a preloaded filter, an earlier thread-sync load of another policy, a divergent thread, an outer filter answering ENOSYS to seccomp(2), an outer filter answering EPERM to every auxiliary seccomp(2) operation (support probes) but not to loads, an outer filter answering EINVAL to loads whose flag word has the thread-sync / the log bit (a kernel that does not know the bit), a policy with LOG actions, the process running as uid 65534 with and without no_new_privs (without, a refusal is expected and nil is only acceptable with every thread covered), the whole process under the UNAME26 personality so that uname(2) reports release 2.6.x); each is run once on the real kernel through the real LoadFilter; after an atomic 'load returned' flag every thread (including three born afterwards) probes getppid and reads its own /proc status, and /proc/self/task is scanned; plus all 32 single-bit flag words observed at the syscall seam and, for the defined bits, in strace's decoding of seccomp(2)"
+	ctx.Cov["rule"] = "states = (vector of user-visible phases of N other OS threads at the moment of the load: spinning, in nanosleep, blocked in read, blocked in futex, spawning short-lived threads) x flags {0,tsync,log,tsync|log} x loader on main / non-main thread; every vector for N<=2 (quick) / N<=3 (thorough) and homogeneous + mixed vectors for N=8 (and 64 thorough); plus histories and environments for the small vectors (a preloaded filter, an earlier thread-sync load of another policy, a divergent thread, an outer filter answering ENOSYS to seccomp(2), an outer filter answering EPERM to every auxiliary seccomp(2) operation (support probes) but not to loads, an outer filter answering EINVAL to loads whose flag word has the thread-sync / the log bit (a kernel that does not know the bit), a deny-list policy of 41 groups that compiles to more than 4096 instructions (refusal expected), a policy with LOG actions, the process running as uid 65534 with and without no_new_privs (without, a refusal is expected and nil is only acceptable with every thread covered), the whole process under the UNAME26 personality so that uname(2) reports release 2.6.x); each is run once on the real kernel through the real LoadFilter; after an atomic 'load returned' flag every thread (including three born afterwards) probes getppid and reads its own /proc status, and /proc/self/task is scanned; plus all 32 single-bit flag words observed at the syscall seam and, for the defined bits, in strace's decoding of seccomp(2)"
 	ctx.Assumptions = []string{"the interleaving of seccomp(2) with other threads inside the kernel cannot be scheduled from user space; one run per phase vector", "phase of blocked threads is confirmed through /proc/<tid>/syscall immediately before the load is released"}
 	if replay != "" {
 		return finishReplay(ctx)
